@@ -813,7 +813,21 @@ fn run_one(v: &Value, out: &mut Vec<String>) {
     slog::reset();
     watchdog_arm();
     match kind {
-        "pipeline" => run_pipeline(v, out),
+        "pipeline" => {
+            // "mask": signals blocked in the calling thread while the pipeline is built and run
+            let mut m: u64 = 0;
+            for s in v["mask"].as_array().map(|l| l.as_slice()).unwrap_or(&[]) {
+                m |= 1u64 << (s.as_i64().unwrap() - 1);
+            }
+            let mut old: u64 = 0;
+            if m != 0 {
+                unsafe { libc::syscall(libc::SYS_rt_sigprocmask, libc::SIG_BLOCK, &m as *const u64, &mut old as *mut u64, 8usize) };
+            }
+            run_pipeline(v, out);
+            if m != 0 {
+                unsafe { libc::syscall(libc::SYS_rt_sigprocmask, libc::SIG_SETMASK, &old as *const u64, std::ptr::null_mut::<u64>(), 8usize) };
+            }
+        }
         "handle" => run_handle(v, out),
         "builder" => run_builder(v, out),
         "race" => run_race(v, out),
